@@ -29,3 +29,13 @@ func VerifAddAddressWithHash(km *KeystoreManager, walletId, addr string, scriptH
 func VerifAddWallet(km *KeystoreManager, walletId string) {
 	km.managedKeystores[walletId] = &AddrManager{keystoreName: walletId, index: map[uint32]string{}, addrs: map[string]*ManagedAddress{}, acctInfo: &accountInfo{}, branchInfo: &branchInfo{}}
 }
+
+// VerifNewAddrManager: an address manager named walletId with one address (text, script hash).
+func VerifNewAddrManager(walletId, addr string, scriptHash []byte) *AddrManager {
+	am := &AddrManager{keystoreName: walletId, index: map[uint32]string{}, addrs: map[string]*ManagedAddress{}, acctInfo: &accountInfo{}, branchInfo: &branchInfo{}}
+	am.addrs[addr] = &ManagedAddress{address: addr, keystoreName: walletId, scriptHash: scriptHash}
+	return am
+}
+
+// VerifAddManager registers an address manager with a keystore manager.
+func VerifAddManager(km *KeystoreManager, am *AddrManager) { km.managedKeystores[am.keystoreName] = am }
